@@ -403,6 +403,10 @@ def check_assembly(rep, prog, m):
     lrt = prog.func(GOD, 'LRT_adjust')
     s = single_assignments(lrt)
     adj = s.get('adjust')
+    if adj is None:
+        # direct form `return len(...)/trace(...)` (also the canonical form of `adjust = ...; return adjust`)
+        rr = [n.value for n in lrt.body if isinstance(n, ast.Return) and n.value is not None]
+        adj = rr[-1] if rr else None
     got = mat(adj, None) if adj is not None else None
     rep.ob('R-ALG', 'LRT_adjust', got == ('/', ('len', 'nested_indices'), ('trace', ('dot', ['J', ('inv', 'H')]))), 'adjust = %s' % (got,), rel, lrt.lineno,
            what='adjust = len(nested)/trace(J H^-1)')
